@@ -925,7 +925,16 @@ func (r *Run) newExplorer() (ex *Explorer, err error) {
 	sort.Slice(pkgs, func(a, b int) bool { return pkgs[a].Pkg.Path() < pkgs[b].Pkg.Path() })
 	for _, pkg := range pkgs {
 		if f := pkg.Func("init"); f != nil {
-			i.callSSA(nil, token.NoPos, f, nil, nil)
+			func() {
+				// A failing initialiser leaves that package partially
+				// initialised; harnesses that depend on it will notice.
+				defer func() {
+					if rec := recover(); rec != nil {
+						r.noteStub("package initialiser of " + pkg.Pkg.Path() + " did not complete in the engine: " + describePanic(rec))
+					}
+				}()
+				i.callSSA(nil, token.NoPos, f, nil, nil)
+			}()
 		}
 	}
 	i.funcsSeen = map[*ssa.Function]bool{}
